@@ -44,7 +44,7 @@ def _mk(ctx, backlog, d):
             await h.sleep(ctx.vals_c16['t_s'])
             for _ in range(int(ctx.vals_c16['jh'])):
                 await asyncio.sleep(0)
-            await h.sleep(Exact('1/10'))
+            await h.sleep(Exact(ctx.cfg.get('tie_after', '1/10')))
             return 'p'
         try:
             await h.sleep(d if not ctx.cfg.get('warm') else 5)
@@ -235,6 +235,10 @@ def jobs(tier):
     out.append(Job('C16', 's1.cancel', t_cancel, dict(mode='step', warm=True, kmax=25), max_paths=4000))
     out.append(Job('C16', 's1.stop', t_stop, dict(mode='time', timeout=None, backlog=1, slow_to_die=True), witnesses=('stop mid-handler',)))
     out.append(Job('C16', 's1.stop', t_stop, dict(mode='tie', timeout=None, backlog=1), witnesses=('stop mid-handler',)))
+    if tier == 'thorough':
+        for cfg in (dict(timeout='1/2', backlog=1, tie_after='1/2'), dict(timeout='1/2', backlog=1, tie_after='3/5'), dict(timeout='0', backlog=1, tie_after='1/10'),
+                    dict(timeout=None, backlog=2, tie_after='1/10')):
+            out.append(Job('C16', 's1.stop', t_stop, dict(mode='tie', max_idx=30, **cfg), witnesses=('stop mid-handler',)))
     out.append(Job('C16', 's1.stop', t_stop, dict(mode='time', timeout=None, backlog=1, await_child=True), witnesses=('stop mid-handler',)))
     out.append(Job('C16', 's1.cancel', t_cancel, dict(mode='time', await_child=True)))
     from .. import scenlib as S
